@@ -574,7 +574,15 @@ impl IoLoop {
             for event in events.iter() {
                 #[cfg(amiquip_verif)]
                 crate::verif::emit_event(&event);
-                handle_event(self, stream, state, event)?;
+                if let Err(err) = handle_event(self, stream, state, event) {
+                    // The peer may drop the socket right after its final frame (e.g., the
+                    // server's close-ok); once we have reached our final state, losing the
+                    // socket is not an error.
+                    if is_done(self, state) {
+                        return Ok(());
+                    }
+                    return Err(err);
+                }
             }
 
             if is_done(self, state) {
